@@ -90,6 +90,13 @@ def check(ctx):
         # tree / query
         trees = [e.data[0] for e in p.events if e.kind == "call" and callee(e.data[0]) == "verde.utils.kdtree"]
         qs = [e.data[0] for e in p.events if e.kind == "call" and callee(e.data[0]) == ".query_ball_point"]
+        if len(qs) == 1 and qs[0][1][0] == "attr":
+            recv = qs[0][1][1]
+            kept = [x for x in walk(recv) if isinstance(x, tuple) and x and x[0] == "sub" and x[1][0] == "glob" and x[1][1].startswith(ctx.pkg.name + ".")]
+            if kept and not (recv[0] == "call" and callee(recv) == "verde.utils.kdtree"):
+                ctx.add("R2", "%s|tree-and-query|%s" % (RW, tag), "VIOLATED", "the queried tree is read from the module-level object %s: it may have been built from the coordinates of an earlier call "
+                        "(arrays modified in place since are not noticed)" % show(kept[0][1]), fn=RW)
+                continue
         if len(trees) != 1 or len(qs) != 1:
             ctx.add("R2", "%s|tree-and-query|%s" % (RW, tag), "UNDECIDED", "expected one kdtree and one query_ball_point call", fn=RW)
             continue
